@@ -2,6 +2,8 @@
 canonical states, level-synchronous BFS with monitors."""
 import hashlib
 
+import numpy
+
 from . import env, par, ref, selectors
 from .report import V
 
@@ -160,11 +162,31 @@ def well_of(world, addr):
 
 
 # ---- actions -----------------------------------------------------------------------------------------------------
+def concretise(pp, world, act):
+    """Quantities relative to what the source holds: '@<fraction>@<unit>' becomes a literal request for that fraction of the
+    (least filled) source well, measured by the reference model in the unit named, written with 15 significant digits."""
+    q = act.get('q', '')
+    if not (isinstance(q, str) and q.startswith('@')) or act['op'] != 'transfer':
+        return act
+    from . import ref
+    from fractions import Fraction as F
+    _, frac, unit = q.split('@')
+    src = world[refname(act['src'])]
+    if is_plate(src):
+        o = resolve(world, act['src'])
+        wells = [o] if hasattr(o, 'contents') else list(numpy.asarray(o.get() if is_slice(o) else o.wells).flatten())
+    else:
+        wells = [src]
+    m = min(ref.measure(pp, w.contents, unit) for w in wells)
+    return dict(act, q=f"{float(m * F(frac)):.15g} {unit}")
+
+
 def apply(pp, subs, world, act, operands=None):
     """Perform one action through the real API. Returns obs = {'ok', 'exc', 'new': {name: object}, 'ret'}.
     The world dict is NOT modified; commit(world, obs) rebinds the names.
     operands: a dict in which the operand objects (slices included) are kept, and from which they are taken when present:
     calling apply twice with the same dict performs the action twice through the very same slice objects."""
+    act = concretise(pp, world, act)
     op = act['op']
     held = []           # (list object handed to the call, its value before)
     res = resolve
@@ -375,7 +397,7 @@ class Explorer:
         stats = {'accepted': 0, 'refused': 0}
         k = len(history)
         for ai in range(lo, hi):
-            act = self.alphabet[ai]
+            act = concretise(pp, world, self.alphabet[ai]) if not self.via_recipe else self.alphabet[ai]
             env.clear_caches(pp)
             if self.repeat:
                 held = {}
